@@ -555,6 +555,12 @@ func runOne(sc *Scenario, seed uint64) (oc outcome) {
 	// S: release exactly one parked goroutine per step, chosen by hash.
 	const maxSteps = 5000
 	step := 0
+	sticky := core.HS(seed, "c16.sticky", "", 0)%2 == 0
+	lastPick := ""
+	slow := uint64(0)
+	if x := core.HS(seed, "c16.stall", "", 0); x%2 == 0 {
+		slow = x | 1
+	}
 	for ; step < maxSteps; step++ {
 		synctest.Wait()
 		c.mu.Lock()
@@ -567,7 +573,31 @@ func runOne(sc *Scenario, seed uint64) (oc outcome) {
 			break
 		}
 		sort.Strings(names)
+		// half of the schedules have "slow sites": a caller parked at one of them (about one site
+		// in 16, chosen by hash per schedule) is only released when nobody else can move - it sits
+		// between two statements, possibly inside a critical section, while the others run as far as
+		// they get. Uniform choice practically never produces this.
+		if slow != 0 {
+			kept := make([]string, 0, len(names))
+			for _, n := range names {
+				if core.HS(slow, "c16.slowsite", c.parked[n].site, 0)%16 != 0 {
+					kept = append(kept, n)
+				}
+			}
+			if len(kept) > 0 {
+				names = kept
+			}
+		}
 		pick := names[core.H(seed, "pick", uint64(step))%uint64(len(names))]
+		// half of the schedules are "sticky": the goroutine released last goes on with probability 0.7
+		// when it is parked again, so that one caller makes several steps in a row while another sits
+		// in the middle of an operation (uniform choice almost never produces such runs of steps)
+		if sticky && lastPick != "" && core.H(seed, "stick", uint64(step))%10 < 7 {
+			if _, ok := c.parked[lastPick]; ok {
+				pick = lastPick
+			}
+		}
+		lastPick = pick
 		p := c.parked[pick]
 		delete(c.parked, pick)
 		c.mu.Unlock()
@@ -1058,7 +1088,7 @@ func init() {
 	f.Real = []string{"pkg/ringbuffer.RingBuffer", "internal/asyncprocessor.Processor (through a verif-tagged type alias)", "sync.Mutex / sync.Cond of the Go runtime", "mode cap: gortsplib.Client, Server, ServerStream, ServerSession (the queue as configured behind Client.WritePacketRTP while recording / on a back channel while playing and behind ServerStream.WritePacketRTP)"}
 	f.Simulated = []string{"goroutine interleaving: every goroutine parks at every lock acquisition, unlock->broadcast gap, processor step and task operation; the scheduler releases exactly one per step, chosen by H(seed, step)"}
 	f.Excluded = []string{"RingBuffer.Reset in the concurrent modes (sequential mode only)", "capacity 0", "Push between Close and Reset (the statement is silent about it)"}
-	f.Rule = "scenario = capacity (power of two 1..256) x 1..8 producer scripts x owner/consumer/closer scripts x optional failing item; each scenario is run under 16 schedule seeds in one bubble; a third of the schedules use simulation-aware locks and a yield point before every statement of ringbuffer.go (callers held inside the critical sections), 40% use a seeded subset of the sites (each off with probability 0.35, the point between two operations of a task included); a tenth of the scenarios are the sequential case instead: one caller, phases filling the ring to a seeded level (often exactly the capacity, one below, one above), draining, Close, Pull after Close, Reset, compared operation by operation with a reference FIFO; 8% are the capacity workload of cap.go (real client and server, WriteQueueSize 8..512, a burst of capacity+1..6 writes into the idle queue of each media entry point over tcp/udp: none may be refused before WriteQueueSize were accepted); a run is non-trivial when >= 2 tasks and >= 4 scheduling decisions; distinct = distinct hash of the sequence of (task, site) scheduling decisions"
+	f.Rule = "scenario = capacity (power of two 1..256) x 1..8 producer scripts x owner/consumer/closer scripts x optional failing item; each scenario is run under 16 schedule seeds in one bubble; a third of the schedules use simulation-aware locks and a yield point before every statement of ringbuffer.go (callers held inside the critical sections), 40% use a seeded subset of the sites (each off with probability 0.35, the point between two operations of a task included); the scheduler's choice among the parked callers is uniform, or (half of the schedules) sticky - the caller released last goes on with probability 0.7 -, and half of the schedules have slow sites (about one site in 16: a caller parked there is released only when nobody else can move); a tenth of the scenarios are the sequential case instead: one caller, phases filling the ring to a seeded level (often exactly the capacity, one below, one above), draining, Close, Pull after Close, Reset, compared operation by operation with a reference FIFO; 8% are the capacity workload of cap.go (real client and server, WriteQueueSize 8..512, a burst of capacity+1..6 writes into the idle queue of each media entry point over tcp/udp: none may be refused before WriteQueueSize were accepted); a run is non-trivial when >= 2 tasks and >= 4 scheduling decisions; distinct = distinct hash of the sequence of (task, site) scheduling decisions"
 	f.Assumptions = []string{
 		"interleavings are explored at the granularity of the inserted yield sites (all lock acquisitions and unlock->broadcast gaps of ringbuffer, all steps of asyncprocessor; in runs with simulation-aware locks every statement of ringbuffer.go); code between two sites runs atomically with respect to the other controlled goroutines",
 		"Start and Close are issued by one owner task, as the library does (the processor's running flag is not synchronised)",
